@@ -93,6 +93,8 @@ func genDocs(r *vh.Run) []testDoc {
 	allCrypt := "embedded,xobject,content,metadata"
 	add("gen-cryptfilters", docOpts{Pages: 1, Crypt: allCrypt}, false)
 	add("gen-cryptfilters-objstreams", docOpts{Pages: 2, Crypt: allCrypt}, true)
+	add("gen-twice", docOpts{Pages: 2, Twice: true}, false)
+	add("gen-twice-objstreams", docOpts{Pages: 2, Twice: true}, true)
 	add("gen-sig", docOpts{Pages: 1, Sig: true}, false)
 	add("gen-sig-objstreams", docOpts{Pages: 1, Sig: true}, true)
 	if r.Thorough() {
